@@ -113,7 +113,28 @@ def update_in_create_is_race_only(ctx):
                     n.test.id in f.params and len(n.body) >= 1 and \
                     isinstance(n.body[-1], ast.Raise) and not n.orelse and \
                     g.dominates(n, ust):
-                ok = True
+                # the parameter is bound to the 1.28 gate at every call site
+                p = n.test.id
+                bound = True
+                sites = [cs for c in ctx.cg.callers.get(f, ())
+                         for cs in ctx.cg.calls_in(c) if f in cs.callees]
+                for cs in sites:
+                    kv = C.kwarg(cs.node, p)
+                    if kv is None and f.params.index(p) < len(cs.node.args):
+                        kv = cs.node.args[f.params.index(p)]
+                    gate = None
+                    if isinstance(kv, ast.Name):
+                        from psa.rules.c05 import single_def
+                        d = single_def(cs.caller, kv.id)
+                        gate = ctx.gates.gate_of(cs.caller, d.value) \
+                            if d is not None else None
+                    if gate is None or gate.minv != (1, 28):
+                        bound = False
+                if bound and sites:
+                    ok = True
+                elif not bound:
+                    return False, 'the expect-new parameter is not bound ' \
+                        'to the 1.28 gate at its call site'
         if not ok:
             return False, 'consumer.update() at line %d is not behind an ' \
                 'expect-new rejection' % u.lineno
@@ -140,9 +161,7 @@ def check_roots(ctx, R, rule, handlers=None):
             if ctx.effects.scope_kind(root) != 'writer':
                 continue
             core_sites.append((caller, node, root, ce))
-        if not core_sites and not any(
-                x[0] in 'IUD' for _c, _n, r in sites
-                for x in ctx.effects.summary(r)):
+        if not ctx.effects.write_effects_below(f):
             continue
         n += 1
         # the consumer-type update on the lost creation race
